@@ -148,6 +148,8 @@ func (ex *Exec) ghostHeapVal(name string, st *State) (Val, bool) {
 		return Val{T: ex.getHeap(st, "$nextref", SInt), Ty: tyInt}, true
 	case "$seq":
 		return Val{T: ex.getHeap(st, "$seq", SInt), Ty: tyInt}, true
+	case "$typeof":
+		return Val{T: ex.getHeap(st, "$typeof", ArrS(SInt, SInt)), Ty: tyIMap}, true
 	case "$held":
 		return Val{T: ex.getHeap(st, "$held", ArrS(SInt, SInt)), Ty: tyIMap}, true
 	case "$wg":
@@ -803,6 +805,19 @@ func (ex *Exec) evCall(x *SCall, env *Env) Val {
 			t = SlBase(t)
 		}
 		return Val{T: And(Ge(t, ex.getHeap(env.old, "$nextref", SInt)), Lt(t, ex.getHeap(env.st, "$nextref", SInt))), Ty: tyBool}
+	case "isa":
+		// isa(x, "T"): x points to an object allocated as a T (of the current package)
+		k, ok := x.Args[1].(*SStrLit)
+		if !ok {
+			ex.specFail("isa: second argument must be a type name string")
+		}
+		t := ex.V.lookupType(k.Val, env.pkgOr(ex.pkg))
+		if t == nil {
+			ex.specFail("isa: unknown type %s", k.Val)
+		}
+		h := ex.getHeap(st, "$typeof", ArrS(SInt, SInt))
+		xa := arg(0).T
+		return Val{T: And(Lt(xa, ex.getHeap(st, "$nextref", SInt)), Eq(Select(h, xa), IntLit(int64(ex.V.nameID("type:"+structName(t)))))), Ty: tyBool}
 	case "allocated":
 		a := arg(0)
 		t := a.T
@@ -1137,7 +1152,7 @@ func (ex *Exec) checkFrame(env *Env, pos token.Pos) {
 	}
 	oldNext := ex.getHeap(ex.init, "$nextref", SInt)
 	for name, cur := range ex.cur.heap {
-		if whole[name] || name == "$nextref" || name == "$seq" || strings.HasPrefix(name, "$iter.") {
+		if whole[name] || name == "$nextref" || name == "$seq" || name == "$typeof" || strings.HasPrefix(name, "$iter.") {
 			continue
 		}
 		pre := ex.getHeap(ex.init, name, cur.S)
